@@ -196,20 +196,24 @@ theorem processPluginResponse_eq_spec (caps : List String) (resp) (o : Outcome) 
     | none => simp [stepCapG, hpr]
     | some pr =>
       by_cases h1 : (a == CapabilityTrustedIdentityVerifier) = true
-      · by_cases h2 : pr.Success = true
-        · simp [stepCapG, hpr, h1, h2, GoLite.deref]
+      · -- whichever capability the source tests first: the other test is false here
+        have h3 : (a == CapabilityRevocationCheckVerifier) = false := by
+          have ha : a = CapabilityTrustedIdentityVerifier := by simpa using h1
+          rw [ha]; decide
+        by_cases h2 : pr.Success = true
+        · simp [stepCapG, hpr, h1, h3, h2, GoLite.deref]
         · cases hf : List.find? (fun x => isAuth x.2) (GoLite.enum t.1.VerificationResults) with
           | none =>
-            simp [stepCapG, hpr, h1, h2, GoLite.deref, hf, isCriticalFailure, defaultNotEnforced, Id.run]
+            simp [stepCapG, hpr, h1, h3, h2, GoLite.deref, hf, isCriticalFailure, defaultNotEnforced, Id.run]
           | some x =>
             have hx := (GoLite.find_enum_some isAuth id t.1.VerificationResults x.1 x.2 hf).1
             by_cases hc : isCriticalFailure (setErr (GoLite.errorf "") x.2) = true
             · have hc' := hc
               simp only [setErr, GoLite.errorf] at hc'
-              simp [stepCapG, hpr, h1, h2, GoLite.deref, hf, hx, hc', setErr, GoLite.errorf]
+              simp [stepCapG, hpr, h1, h3, h2, GoLite.deref, hf, hx, hc', setErr, GoLite.errorf]
             · have hc' := hc
               simp only [setErr, GoLite.errorf] at hc'
-              simp [stepCapG, hpr, h1, h2, GoLite.deref, hf, hx, hc', setErr, GoLite.errorf]
+              simp [stepCapG, hpr, h1, h3, h2, GoLite.deref, hf, hx, hc', setErr, GoLite.errorf]
       · by_cases h3 : (a == CapabilityRevocationCheckVerifier) = true
         · by_cases h2 : pr.Success = true
           · by_cases hc : isCriticalFailure { «Type» := trustpolicy.TypeRevocation, Action := GoLite.Map.get t.1.VerificationLevel.Enforcement trustpolicy.TypeRevocation, Error := none } = true
